@@ -116,7 +116,7 @@ def unresolved_renamed(exp_p, exp_v):
                   if ob(x[2]) and x[0].endswith('_x') and x[0].split('#')[-1][:-2] in plan_items)
 
 
-GATED = ('plandeps-disable-scope', 'rename-unresolved-callee')
+GATED = ('plandeps-block-scope', 'rename-unresolved-callee')
 
 
 def listed_classes():
@@ -124,22 +124,15 @@ def listed_classes():
     return {k['class'] for k in load_known() if k['property'] == 'C24' and k.get('status', 'open') == 'open'}
 
 
-def scope_class_listed():
-    from ..core import load_known
-    return any(k['property'] == 'C24' and k['class'] == 'plandeps-disable-scope' and k.get('status', 'open') == 'open'
-               for k in load_known())
-
-
-def generated_scope_disabled(proj, cfg, pl):
-    """DuplicateKernel pipeline and some disable list (default or of a routine) names the module the duplicate of the
-    kernel is put in (`<module>_dupm`)"""
+def generated_scope_blocked(proj, cfg, pl):
+    """DuplicateKernel pipeline and some block list names the module the duplicate of the kernel is put in
+    (`<module>_dupm`)"""
     if pl[0] != 'dup':
         return False
     home = c22.home_of(proj).get(pl[1])
     if not home:
         return False
-    lists = [cfg['ddisable']] + [ent.get('disable', []) for _, ent in cfg['routines']]
-    return any(home + '_dupm' in l for l in lists)
+    return any(home + '_dupm' in ent.get('block', []) for _, ent in cfg['routines'])
 
 
 def name_generated_items(rng, proj, cfg, kernel):
@@ -151,16 +144,16 @@ def name_generated_items(rng, proj, cfg, kernel):
     home = c22.home_of(proj).get(kernel)
     vals = [kernel + '_dup', kernel + '_dup', kernel]
     if home:
-        vals += [f'{home}_dupm#{kernel}_dup']
-        if scope_class_listed():
-            # naming the generated *module* makes planning and conversion disagree (class plandeps-disable-scope):
-            # generated only once that class is listed among the known findings
-            vals += [home + '_dupm']
+        vals += [f'{home}_dupm#{kernel}_dup', home + '_dupm']
     val = rng.choice(vals)
     if rng.random() < 0.25:
         cfg['ddisable'] = sorted(set(cfg['ddisable']) | {val})
         return cfg
     key = rng.choice(['disable', 'disable', 'block', 'ignore'])
+    if key == 'block' and val.endswith('_dupm') and 'plandeps-block-scope' not in listed_classes():
+        # a *block* entry naming the module of a generated item still makes planning and conversion disagree
+        # (class plandeps-block-scope): generated only once that class is listed among the known findings
+        key = 'disable'
     ents = dict(cfg['routines'])
     ent = ents.setdefault('r0', {})
     ent[key] = sorted(set(ent.get(key, [])) | {val})
@@ -428,11 +421,11 @@ def check_property(res, ctx):
                     f'{unresolved_renamed(p["exp"], res["conv"]["exp"])} but not the routines themselves (driver role / '
                     f'ignored); non-strict, so the renamed callee becomes an ExternalItem in the conversion graph and its '
                     f'file is not written, while planning (the renaming transformations have no plan_* methods) lists it')
-        elif generated_scope_disabled(proj, cfg, pl):
-            cls = 'plandeps-disable-scope'
-            what = (f'plan appends {app} but the conversion wrote {written}: a `disable` entry names the module of an item '
-                    f'generated by {pl[0]}; the planning-side filter of plan_data dependencies (match_item_keys on the full and '
-                    f'local name) keeps it, the conversion-side filter (create_from_ir, match_item_parents=True) drops it')
+        elif generated_scope_blocked(proj, cfg, pl):
+            cls = 'plandeps-block-scope'
+            what = (f'plan appends {app} but the conversion wrote {written}: a `block` entry names the module of an item '
+                    f'generated by {pl[0]}; planning (SGraph._add_children: match_item_keys on the full and local name) keeps '
+                    f'it, the conversion (create_from_ir, ignore=disable+block with match_item_parents=True) drops it')
         elif drift:
             cls = 'graph-drift'
             what = (f'plan appends {app} but the conversion wrote {written}: items {drift[:4]} differ (ignored / present) '
@@ -678,7 +671,7 @@ class C24(Prop):
         return check_property(res, ctx)
 
     def classes(self):
-        return ['output-collision', 'graph-drift', 'convert-raises', 'created-not-replicated', 'plandeps-disable-scope',
+        return ['output-collision', 'graph-drift', 'convert-raises', 'created-not-replicated', 'plandeps-block-scope',
                 'rename-unresolved-callee']
 
     def shrink_candidates(self, req):
